@@ -66,6 +66,7 @@ pub fn items(tcx: TyCtxt<'_>) -> J {
     let mut impls = Vec::new();
     let mut traits = Vec::new();
     let mut aliases = Vec::new();
+    let mut reexports = Vec::new();
     for id in tcx.hir_free_items() {
         let item = tcx.hir_item(id);
         let did = item.owner_id.to_def_id();
@@ -141,6 +142,25 @@ pub fn items(tcx: TyCtxt<'_>) -> J {
                 o.put("items", J::Arr(names));
                 traits.push(o);
             }
+            hir::ItemKind::Use(upath, _) => {
+                // re-exports: `pub use a::b as c;` -> (module path of the item, exported name, target def path)
+                let name = upath.segments.last().map(|sg| sg.ident.to_string()).unwrap_or_default();
+                let exported = match item.kind {
+                    hir::ItemKind::Use(_, hir::UseKind::Single(id)) => id.to_string(),
+                    _ => name.clone(),
+                };
+                for r in [upath.res.type_ns, upath.res.value_ns, upath.res.macro_ns].into_iter().flatten() {
+                    if let Res::Def(dk, d) = r {
+                        let mut o = J::obj();
+                        o.put("in", J::s(&tcx.def_path_str(tcx.parent_module_from_def_id(item.owner_id.def_id).to_def_id())));
+                        o.put("name", J::s(&exported));
+                        o.put("dk", J::s(&format!("{:?}", dk)));
+                        o.put("target", J::s(&tcx.def_path_str(d)));
+                        o.put("vis", J::s(&vis_str(tcx, did)));
+                        reexports.push(o);
+                    }
+                }
+            }
             hir::ItemKind::TyAlias(..) => {
                 let t = tcx.type_of(did).instantiate_identity().skip_norm_wip();
                 let mut o = J::obj();
@@ -156,6 +176,7 @@ pub fn items(tcx: TyCtxt<'_>) -> J {
     o.put("impls", J::Arr(impls));
     o.put("traits", J::Arr(traits));
     o.put("aliases", J::Arr(aliases));
+    o.put("reexports", J::Arr(reexports));
     o
 }
 
